@@ -20,6 +20,7 @@ func init() {
 			"O1 key encoding (R-TAINT): every string that reaches a go-datastore key constructor (NewKey, RawKey, Key.ChildString, ...) or query.Query.Prefix in package dsindex is encode(..) of a caller string, the empty prefix, or a raw key read back from a query result (helper parameters are followed to all call sites; a raw parameter is accepted only on the edge where it was tested empty); every string handed to the ForEach callback and every element of the slice returned by Search is result 0 of decode(..) on its nil-error edge, decode being applied to path.Base(path.Dir(Entry.Key)) for the index key and path.Base(Entry.Key) for the value; " +
 			"O2 encoding facts (R-CONST/R-FLOW): encode returns multibase.Encode(E, []byte(s)) with E a constant from the slash-free multibase set, decode returns string(bytes) of multibase.Decode on its nil edge; " +
 			"O3 sibling key shape and guards (R-SIB): every Key.ChildString in an Indexer method is NewKey(encode(key)).ChildString(encode(value)) with key/value the first/second string parameter; Add, Delete, HasValue reject empty key and value, DeleteKey and Search reject the empty key, before any datastore access (explicit table over the Indexer method set; an unknown method is a checker problem). " +
+			"O8 (R-FLOW/R-CMP): the prefix of every query reached from an Indexer method is that method's own key, raw or encoded exactly once (the empty prefix for DeleteAll), the encode lying behind a non-empty test where the empty key means all keys; indexed loops over query results start at 0 and are bounded by len(entries). " +
 			"NOT decided: go-datastore's path-scoped Query.Prefix semantics and namespace wrapping (trusted), multibase being injective, equality with the multimap model.",
 		Assume:    []string{"go-datastore Query.Prefix matches whole path components (v0.9.2 NaiveQueryApply appends '/')", "multibase.Encode/Decode are inverse and the listed encodings never emit '/'"},
 		Technique: "SSA taint/provenance with per-edge guards (R-TAINT, R-FLOW), constant facts from types (R-CONST), sibling table (R-SIB), edge dominance (R-DOM)",
@@ -220,7 +221,7 @@ func runC24(c *an.Ctx) {
 	}
 	it := iface.Underlying().(*types.Interface)
 	touches := c24TouchesDs(fns)
-	nChild, nGuard, nOps := 0, 0, 0
+	nChild, nGuard, nOps, nPfx := 0, 0, 0, 0
 	for i := 0; i < it.NumMethods(); i++ {
 		m := it.Method(i)
 		want, known := table[m.Name()]
@@ -245,6 +246,10 @@ func runC24(c *an.Ctx) {
 		// (local helpers are followed with their arguments bound)
 		c24EffOps(fn, nil, 0, func(call ssa.CallInstruction, env *c24Env) {
 			ci := an.Callee(call)
+			if ci.Name == "Query" {
+				nPfx += c24PrefixProvenance(c, name, want, sp, call, env)
+				return
+			}
 			switch ci.Name {
 			case "Put", "Has", "Get", "GetSize", "Delete":
 			default:
@@ -307,6 +312,8 @@ func runC24(c *an.Ctx) {
 	c.Min("O3 pair-keyed datastore operations", nChild, 2)
 	c.Min("O5 datastore operations reached from Indexer methods", nOps, 4)
 	c.Min("O3 empty-string guards", nGuard, 8)
+	c.Min("O8 query prefixes reached from Indexer methods", nPfx, 4)
+	c24FullIteration(c, fns)
 
 	c24Queries(c, fns)
 	c24CallbackProtocol(c, fns)
@@ -1277,4 +1284,153 @@ func c24InFns(fns []*ssa.Function, h *ssa.Function) bool {
 		}
 	}
 	return false
+}
+
+// O8 (prefix provenance): the prefix of every query reached from an Indexer
+// method is derived from that method's own key: the key parameter itself (raw,
+// only where it is empty - O1) or encode(key parameter), encoded exactly once;
+// a method without a key (DeleteAll) queries the empty prefix. In the methods
+// for which the empty key means "all keys" the encode call lies behind a
+// non-empty test of its argument.
+func c24PrefixProvenance(c *an.Ctx, name, want string, sp []*ssa.Parameter, q ssa.CallInstruction, env *c24Env) int {
+	args := an.Args(q)
+	if len(args) < 2 {
+		return 0
+	}
+	var cell *ssa.Alloc
+	if u, ok := args[1].(*ssa.UnOp); ok && u.Op == token.MUL {
+		cell, _ = u.X.(*ssa.Alloc)
+	}
+	if cell == nil {
+		return 0 // reported by O4
+	}
+	n := 0
+	for _, r := range *cell.Referrers() {
+		fa, ok := r.(*ssa.FieldAddr)
+		if !ok {
+			continue
+		}
+		if f, _ := an.FieldOf(fa); f == nil || f.Name() != "Prefix" {
+			continue
+		}
+		for _, r2 := range *fa.Referrers() {
+			st, ok := r2.(*ssa.Store)
+			if !ok || st.Addr != ssa.Value(fa) {
+				continue
+			}
+			n++
+			bad := ""
+			isOwn := func(x c24X) bool { return len(sp) > 0 && x.v == ssa.Value(sp[0]) && x.env == nil }
+			alts := c24Alts(c24X{st.Val, env}, 0)
+			// does the method's own key scope the query on some path?
+			hasOwn := false
+			for _, a := range alts {
+				if isOwn(a) {
+					hasOwn = true
+				}
+				if call, ok := a.v.(*ssa.Call); ok && an.Callee(call).Static != nil && an.Callee(call).Static == c24Enc {
+					for _, x := range c24Alts(c24X{call.Call.Args[0], a.env}, 0) {
+						if isOwn(x) {
+							hasOwn = true
+						}
+					}
+				}
+			}
+			for _, a := range alts {
+				switch v := a.v.(type) {
+				case *ssa.Const:
+					if !c24IsEmptyString(v) {
+						bad = "constant prefix " + v.String()
+					} else if len(sp) > 0 && !(want == "all-on-empty" && hasOwn) {
+						bad = "the method queries a constant empty prefix instead of its own key"
+					}
+				case *ssa.Parameter:
+					if !isOwn(a) {
+						bad = "prefix is " + an.PathOf(v) + ", not the method's key"
+					}
+				case *ssa.Call:
+					if an.Callee(v).Static == nil || an.Callee(v).Static != c24Enc {
+						bad = "prefix is the result of " + an.Callee(v).String()
+						break
+					}
+					if len(sp) == 0 {
+						bad = "a method without a key queries an encoded prefix (encode of the empty string is not the empty prefix)"
+						break
+					}
+					for _, x := range c24Alts(c24X{v.Call.Args[0], a.env}, 0) {
+						if !isOwn(x) {
+							bad = "the encoded string is " + an.PathOf(x.v) + ", not the method's own key (encoded twice, or another string)"
+						}
+					}
+					if prm, ok := v.Call.Args[0].(*ssa.Parameter); ok && want == "all-on-empty" {
+						g := v.Parent()
+						if es := c24NonEmptyEdges(g, prm); len(es) == 0 || !an.GuardedBy(g, nil, v, es) {
+							bad = "the key is encoded although it may be empty: the empty key means 'all keys' here, and encode(\"\") is not the empty prefix"
+						}
+					}
+				default:
+					bad = "prefix is " + an.PathOf(a.v)
+				}
+			}
+			c.Check(bad == "", "O8", "R-FLOW", name, "Query.Prefix<=own-key", q.Pos(),
+				"the query prefix is the method's own key, encoded once (or the empty prefix)",
+				"the prefix of a query reached from this method is not derived from the method's own key ("+bad+"): the method answers for other keys, for all keys, or for none")
+		}
+	}
+	return n
+}
+
+// O8 (full iteration): a loop that indexes the entries of a query result with
+// an induction variable starts at index 0 and runs up to len(entries).
+func c24FullIteration(c *an.Ctx, fns []*ssa.Function) {
+	n := 0
+	for _, fn := range fns {
+		name := an.FuncName(fn)
+		seen := map[ssa.Value]bool{}
+		an.Instrs(fn, func(in ssa.Instruction) {
+			ia, ok := in.(*ssa.IndexAddr)
+			if !ok {
+				return
+			}
+			sl, ok := ia.X.Type().Underlying().(*types.Slice)
+			if !ok || !an.TypeIs(sl.Elem(), c24Dsq, "Entry") || !c44Induction(ia.Index) || seen[ia.Index] {
+				return
+			}
+			seen[ia.Index] = true
+			n++
+			why := ""
+			if !c44FirstIndexZero(ia.Index) {
+				why = "the first index is not 0"
+			}
+			// the compare that bounds this induction variable
+			var phi ssa.Value = ia.Index
+			if b, ok := ia.Index.(*ssa.BinOp); ok {
+				phi = b.X
+			}
+			an.Instrs(fn, func(in2 ssa.Instruction) {
+				ifi, ok := in2.(*ssa.If)
+				if !ok {
+					return
+				}
+				b, ok := c44Atom(ifi.Cond).(*ssa.BinOp)
+				if !ok || b.Op != token.LSS {
+					return
+				}
+				x := b.X
+				if inc, ok := x.(*ssa.BinOp); ok && inc.Op == token.ADD {
+					x = inc.X
+				}
+				if x != phi {
+					return
+				}
+				call, ok := b.Y.(*ssa.Call)
+				if !ok || an.Callee(call).Builtin != "len" || !an.SameObj(call.Call.Args[0], ia.X) {
+					why = "the loop bound is not len(entries)"
+				}
+			})
+			c.Check(why == "", "O8", "R-CMP", name, "entries-loop=0..len", ia.Pos(),
+				"the loop over the query result visits every entry", "the loop over the entries of a query result does not visit all of them ("+why+"): Search returns an unset string / DeleteKey leaves a pair behind while reporting it deleted")
+		})
+	}
+	c.Min("O8 indexed loops over query results", n, 2)
 }
